@@ -432,6 +432,15 @@ func findNextCharsetPositionConstraint(search string, charset []byte) int {
 
 	for _, char := range charset {
 		pos := strings.IndexByte(search, char)
+		// an occurrence inside the constraint does not end the parameter, look behind it
+		for pos != -1 && pos > constraintStart && pos < constraintEnd {
+			next := strings.IndexByte(search[pos+1:], char)
+			if next == -1 {
+				pos = -1
+			} else {
+				pos += next + 1
+			}
+		}
 
 		if pos != -1 && (pos < nextPosition || nextPosition == -1) {
 			if (pos > constraintStart && pos > constraintEnd) || (pos < constraintStart && pos < constraintEnd) {
